@@ -285,11 +285,11 @@ type tierSpec struct {
 
 func tierFor(prop, tier string) tierSpec {
 	quick := map[string]tierSpec{
-		"C01": {1400, 75 * time.Second}, "C02": {1400, 75 * time.Second}, "C03": {1200, 75 * time.Second},
-		"C04": {1600, 75 * time.Second}, "C05": {1200, 75 * time.Second}, "C06": {1400, 75 * time.Second},
-		"C07": {700, 90 * time.Second}, "C08": {1000, 75 * time.Second}, "C10": {1400, 75 * time.Second},
-		"C09": {500, 110 * time.Second}, "C16": {1000, 90 * time.Second},
-		"C17": {20000, 45 * time.Second}, "C18": {20000, 45 * time.Second},
+		"C01": {4000, 100 * time.Second}, "C02": {4000, 100 * time.Second}, "C03": {3500, 100 * time.Second},
+		"C04": {4500, 100 * time.Second}, "C05": {3500, 100 * time.Second}, "C06": {4000, 100 * time.Second},
+		"C07": {2000, 110 * time.Second}, "C08": {3000, 100 * time.Second}, "C10": {4000, 100 * time.Second},
+		"C09": {1500, 120 * time.Second}, "C16": {1000, 100 * time.Second},
+		"C17": {40000, 60 * time.Second}, "C18": {40000, 60 * time.Second},
 	}
 	thorough := map[string]tierSpec{
 		"C01": {60000, 20 * time.Minute}, "C02": {60000, 20 * time.Minute}, "C03": {50000, 20 * time.Minute},
@@ -353,10 +353,10 @@ func (a *aggregate) add(v *Verdict) {
 	if v.Nontrivial {
 		a.nontrivial++
 	}
+	for _, f := range v.Features {
+		a.features[f]++
+	}
 	if v.Case != nil {
-		for _, f := range v.Case.Features {
-			a.features[f]++
-		}
 		if len(v.Failures) == 0 && len(a.samples) < 3 {
 			a.samples = append(a.samples, v.Case)
 		}
